@@ -4,12 +4,12 @@
 # time); logs go to <round-dir>.try/ (outside the agents' directories).
 RD=${1%/}; LOG=$RD.try; mkdir -p $LOG
 cd /verif
-for p in $(seq -w 1 20); do for k in 1 2; do
+for p in $(seq -w 1 20); do for k in 1 2 3; do
   d=$RD/C$p/_out/$k
   [ -f $d/meta.json ] && [ -f $d/patch.diff ] || continue
   [ -f $LOG/C$p.$k.try ] && [ "${FORCE:-0}" != 1 ] && continue
   ( selftest/try_seed.sh $d C$p > $LOG/C$p.$k.try 2>&1 ) &
   while [ $(jobs -r | wc -l) -ge 6 ]; do sleep 1; done
 done; done; wait
-for p in $(seq -w 1 20); do for k in 1 2; do f=$LOG/C$p.$k.try; [ -f $f ] || { echo "C$p/$k -"; continue; }
+for p in $(seq -w 1 20); do for k in 1 2 3; do f=$LOG/C$p.$k.try; [ -f $f ] || { echo "C$p/$k -"; continue; }
   echo "C$p/$k $(grep -o 'exit=[0-9]*' $f | tr '\n' ' ') $(grep -o 'violations=[0-9]*' $f | tail -1) $(grep -c 'PATCH-DOES\|NO-COMPILE' $f) $(grep '^  FAIL' $f | sed 's/^  FAIL [^ ]* \([^|]*\)|.*/\1/' | sort -u | tr '\n' ' ')"; done; done
